@@ -41,6 +41,8 @@ contract(MSM, "ShardsList.write_config", props=["C04", "C06", "C08", "C16", "C17
         ("C16", "forall(lambda j: implies(0 <= j and j < len(hashes), result.shard_list_info_file.hash_checksums[j] =="
                 " HEX(hashes[j], disk_read(PJOIN(dataset_root_path, self.relative_path_self)), FLEN(disk_read(PJOIN(dataset_root_path, self.relative_path_self))))))"),
         "fresh(result) and fresh(result.shard_list_info_file)",
+        # A-PYD: the document now on disk parses to a (ghost) object of its own: not any object that existed before
+        "fresh(DOC_AT(dataset_root_path, self.relative_path_self))",
     ])
 
 contract(MSM, "ShardsList.load_or_create", props=["C04", "C08", "C17", "C06", "C20"],
